@@ -510,19 +510,41 @@ fn exec_copy(case: &Value, tag: &str) -> Value {
             if let Some(b) = pre.take() { close(b); }
             let store = Store::from(src.clone());
             let recreate = action["recreate"].as_bool().unwrap_or(true);
-            let r = block_on(async {
-                match store.copy_to(&dst_uri, method_of(method), pass_key_for(method), recreate).await {
-                    Ok(t) => { t.close().await.ok(); Ok(()) }
-                    Err(e) => Err(e),
+            // Provisioning the fresh WAL-mode target can fail with SQLITE_BUSY ("database is locked") while the new pool's
+            // first connections race on the journal-mode switch (seen ~1 in 1000 when 16 cases run in parallel): set-up,
+            // not this property — retry a recreating, fault-free copy a few times.
+            let mut r = Ok(());
+            for attempt in 0..6u64 {
+                r = block_on(async {
+                    match store.copy_to(&dst_uri, method_of(method), pass_key_for(method), recreate).await {
+                        Ok(t) => { t.close().await.ok(); Ok(()) }
+                        Err(e) => Err(e),
+                    }
+                });
+                match &r {
+                    Err(e) if recreate && fault_j.is_none() && format!("{:?}", e).contains("database is locked") => {
+                        std::thread::sleep(std::time::Duration::from_millis(30 * (attempt + 1)));
+                    }
+                    _ => break,
                 }
-            });
+            }
             block_on(async move { drop(store) });
             match r { Ok(()) => json!("ok"), Err(e) => json!({"err": format!("{:?}", e.kind())}) }
         }
         "copy_store" => {
             if let Some(b) = pre.take() { close(b); }
             let recreate = action["recreate"].as_bool().unwrap_or(true);
-            match block_on(async { copy_store(&src, dst_uri.as_str(), method_of(method), pass_key_for(method), recreate).await }) {
+            let mut r = block_on(async { copy_store(&src, dst_uri.as_str(), method_of(method), pass_key_for(method), recreate).await });
+            for attempt in 0..5u64 {
+                match &r {
+                    Err(e) if recreate && fault_j.is_none() && format!("{:?}", e).contains("database is locked") => {
+                        std::thread::sleep(std::time::Duration::from_millis(30 * (attempt + 1)));
+                        r = block_on(async { copy_store(&src, dst_uri.as_str(), method_of(method), pass_key_for(method), recreate).await });
+                    }
+                    _ => break,
+                }
+            }
+            match r {
                 Ok(t) => { target = Some(t); json!("ok") }
                 Err(e) => jerr(&e),
             }
@@ -871,7 +893,7 @@ fn migrate_and_dump(path: &str, name: &str, wallet_key: &str, kdf: &str) -> (Val
         let m = IndySdkToAriesAskarMigration::connect(path, name, wallet_key, kdf).await?;
         m.migrate().await
     });
-    if let Err(e) = r { return (jerr(&e), Value::Null); }
+    if let Err(e) = r { let mut j = jerr(&e); j["msg"] = json!(format!("{:?}", e).chars().take(300).collect::<String>()); return (j, Value::Null); }
     let method = match kdf { "RAW" => "raw", "ARGON2I_INT" => "kdf:argon2i:int", _ => "kdf:argon2i:mod" };
     let uri = format!("sqlite://{}", path);
     let opened = block_on(async { uri.as_str().open_backend(Some(method_of(method)), PassKey::from(wallet_key.to_string()), None).await });
